@@ -22,6 +22,9 @@ def plan(tier, seed):
 def run(ctx, spec):
     env.setup()
     cands = wlxml.shipped(env.REPO)
+    if spec.get('shard') == 1:
+        # the object table driven directly: 70 000 incarnations of one id (quick), 1 100 000 (thorough)
+        objcheck.deep_table(ctx, 70000 if ctx.tier == 'quick' else 1100000)
     rng = ctx.rng
     for i in range(spec['n'] + (1 if spec.get('shard') == 0 else 0)):
         if i == spec['n']:
@@ -110,4 +113,6 @@ def finalize(m):
 
 def replay(ctx, case):
     env.setup()
+    if 'deep_table' in case:
+        return objcheck.deep_table(ctx, case['deep_table'])
     objcheck.replay_lines(ctx, case, WANT)
